@@ -1260,7 +1260,8 @@ func sameAddrDeep(a, b ssa.Value, d int) bool {
 	switch x := a.(type) {
 	case *ssa.FieldAddr:
 		y, ok := b.(*ssa.FieldAddr)
-		return ok && x.Field == y.Field && sameVal(x.X, y.X, d+1)
+		// x.X is a pointer value (p.f) or itself the address of an enclosing struct (s.a.f)
+		return ok && x.Field == y.Field && (sameVal(x.X, y.X, d+1) || sameAddrDeep(x.X, y.X, d+1))
 	case *ssa.IndexAddr:
 		y, ok := b.(*ssa.IndexAddr)
 		return ok && sameVal(x.X, y.X, d+1) && sameVal(x.Index, y.Index, d+1)
@@ -1270,7 +1271,7 @@ func sameAddrDeep(a, b ssa.Value, d int) bool {
 
 var pureMemo = map[*ssa.Function]bool{}
 
-// IsPureGetter: a single-block function that only loads and returns.
+// IsPureGetter: a single-block function that only loads, computes (no calls but getters, no writes) and returns.
 func IsPureGetter(fn *ssa.Function) bool {
 	if v, ok := pureMemo[fn]; ok {
 		return v
@@ -1279,7 +1280,7 @@ func IsPureGetter(fn *ssa.Function) bool {
 	if ok {
 		for _, in := range fn.Blocks[0].Instrs {
 			switch x := in.(type) {
-			case *ssa.FieldAddr, *ssa.Field, *ssa.Return, *ssa.DebugRef, *ssa.ChangeType, *ssa.Convert, *ssa.Alloc:
+			case *ssa.FieldAddr, *ssa.Field, *ssa.Return, *ssa.DebugRef, *ssa.ChangeType, *ssa.Convert, *ssa.Alloc, *ssa.BinOp:
 			case *ssa.Store:
 				if al, isAl := x.Addr.(*ssa.Alloc); !isAl || al.Heap {
 					ok = false
